@@ -22,6 +22,7 @@ from ..engine.model import AnalysisError, src, walk_own
 from ..engine.inline import Inliner
 from .spstate import SPAnalysis, SPM
 from .c10 import coherence
+from .common_ops import flat_method as _flat_m0
 
 FHP = 'basic_robotics.general.faser_high_performance'
 
@@ -152,6 +153,67 @@ def check(model, rep):
                    line=fields[-1][1])
     rep.count('R09.7 objects bound to joint tables / buffers', n_bind)
     rep.floor('R09.7', 'objects bound to joint tables / buffers', n_bind, 2)
+    # ---------------------------------------------------------------- R09.8
+    # move(new base) must carry the top plate RIGIDLY: the pose handed to IK is  new_base * inv(old_base) * old_top  (free-group word of the
+    # pose expression; localToGlobal = a*b and globalToLocal = inv(a)*b are decided under C04).  Composing on the other side, or from the
+    # new base twice, agrees only while the old base is the identity - the case the tests exercise.
+    rep.rule('R09.8', 'move(new base): on every path the top pose handed to IK is new_base * inv(old base) * old top (pose word over all '
+                      'branches), solved against the new base')
+    from .posealg import walk as _pwalk, show as _pshow
+    mv = sp.methods.get('move')
+    if mv is None:
+        raise AnalysisError('anchor vanished: SP.move')
+    ik = sp.methods.get('IK')
+    if ik is None:
+        raise AnalysisError('anchor vanished: SP.IK')
+    BASE, TOP, REL = 'self._base_pos_global', 'self._end_effector_pos_global', 'self._current_plate_transform_local'
+    b0, t0 = ((BASE + '@entry', 1),), ((TOP + '@entry', 1),)
+    # the stored relative pose is inv(base) * top on entry (state coherence, R09.3): a move may use it instead of recomputing it
+    init_env = {REL: ((BASE + '@entry', -1), (TOP + '@entry', 1))}
+    newp = mv.params[1] if len(mv.params) > 1 else None
+    if newp is None:
+        raise AnalysisError('SP.move lost its pose parameter')
+    want_top = ((newp, 1), (BASE + '@entry', -1), (TOP + '@entry', 1))
+    mv_flat = _flat_m0(sp, 'move', stop=('_IKHelper',))
+    pths = _pwalk(sp, mv_flat, ('self.IK', 'self._IKHelper'), (BASE, TOP), init_env=init_env)
+    n_mv = 0
+    for pth in pths:
+        for ln in pth['unknown']:
+            rep.ob('R09.8', mv, 'move: pose bookkeeping in straight-line / branching code', False,
+                   'a loop / try / with block touching the plate poses is not followed', shape=True, line=ln)
+        if not pth['calls']:
+            rep.ob('R09.8', mv, 'move re-solves the legs for the carried top pose', False,
+                   'a path through move reaches its end without calling IK: the plate poses and leg lengths keep describing the old placement', line=mv.node.lineno)
+            continue
+        fn, args, snap, line = pth['calls'][-1]
+        n_mv += 1
+        if fn == 'self.IK':
+            names = [p_ for p_ in ik.params[1:]]
+        else:
+            ihp = sp.methods['_IKHelper'].params[1:] if '_IKHelper' in sp.methods else []
+            names = list(ihp)
+        byname = {}
+        for k_, w_ in args.items():
+            if isinstance(k_, int):
+                if k_ < len(names):
+                    byname[names[k_]] = w_
+            else:
+                byname[k_] = w_
+        topk = next((k_ for k_ in byname if 'top' in k_), None)
+        botk = next((k_ for k_ in byname if 'bottom' in k_), None)
+        top_w = byname[topk] if topk else snap.get(TOP)
+        bot_w = byname[botk] if botk else snap.get(BASE)
+        if (topk and top_w is None) or (botk and bot_w is None):
+            rep.ob('R09.8', mv, 'move: pose arguments of %s are pose words' % fn, False, 'an argument of %s is not built from compositions / inverses / '
+                   'frame conversions of poses' % fn, shape=True, line=line)
+            continue
+        rep.ob('R09.8', mv, 'top pose handed to %s = new base * inv(old base) * old top' % fn[5:], top_w == want_top,
+               'move solves for the top pose  %s ; carrying the plate rigidly needs  %s  - the two agree only while the old base pose is the identity, so a '
+               'second move (or a move of a platform built on a displaced base) changes the relative plate pose and the leg lengths'
+               % (_pshow(top_w), _pshow(want_top)), line=line)
+        rep.ob('R09.8', mv, 'legs solved against the new base', bot_w == ((newp, 1),),
+               'move solves with the bottom pose  %s , not the requested new base  %s' % (_pshow(bot_w), newp), line=line)
+    rep.floor('R09.8', 'paths of move ending in a leg solve', n_mv, 1)
     # ---------------------------------------------------------------- R09.2
     rep.rule('R09.2', 'FK joint tables re-derived after every replacement of the plate-fixed joint coordinates (all paths, all public methods)')
     from ..engine import peval as _pe
